@@ -310,6 +310,12 @@ func checkC19(c any, r *Rec) error {
 	set := pongo2.NewSet("c19", newMemLoader(files))
 	tpl, err := set.FromFile("/root.tpl")
 	if err != nil {
+		// what is bound to fail when executed (a filter that rejects its literal input, the negation
+		// of a non-number) may as well be refused when compiled
+		if w, ferr := cs.fold(start); ferr != nil || expect(w) == "!error" {
+			r.Class("rejected-at-compile-time")
+			return nil
+		}
 		return fmt.Errorf("does not compile: %v\n src=%q", err, src)
 	}
 	got, xerr := tpl.Execute(c19Context())
